@@ -743,6 +743,10 @@ func (m *Mast) Cursor(ctx context.Context) (*Cursor, error) {
 	if err != nil {
 		return nil, fmt.Errorf("load root: %w", err)
 	}
+	if node.isEmpty() {
+		// never-populated tree: no entry to stand on, like an emptied tree
+		return &Cursor{m: m}, nil
+	}
 	cursor := &Cursor{
 		m: m,
 		path: []pathEntry{
@@ -922,6 +926,9 @@ func (c *Cursor) search1(ctx context.Context, key interface{}) error {
 // Ceil moves the cursor to the entry with the given key, or if not present,
 // the entry with the next-larger key.
 func (c *Cursor) Ceil(ctx context.Context, key interface{}) error {
+	if len(c.path) == 0 {
+		return nil
+	}
 	for {
 		err := c.search1(ctx, key)
 		if err != nil {
